@@ -87,7 +87,7 @@ func ssoChecks(rec *sim.Response, now time.Time, cfgIssuer string) map[string]bo
 	return V
 }
 
-var c03Faults = []string{"version-1.1", "version-empty", "version-absent", "dest-other", "dest-nearmiss", "dest-empty", "dest-absent",
+var c03Faults = []string{"dest-nearmiss", "recipient-nearmiss", "issuer-nearmiss", "a-issuer-nearmiss", "dest-nearmiss", "recipient-nearmiss", "version-1.1", "version-empty", "version-absent", "dest-other", "dest-nearmiss", "dest-empty", "dest-absent",
 	"issuer-absent", "issuer-other", "issuer-empty", "a-issuer-absent", "a-issuer-other", "a-issuer-empty",
 	"status-absent", "statuscode-absent", "status-requester", "status-second-level", "zero-assertions",
 	"issuer-suffix-after-pi", "a-issuer-suffix-after-pi", "second-status-bad",
@@ -129,6 +129,8 @@ func injectSSOFault(r *rand.Rand, rec *sim.Response, now time.Time, f string) st
 		rec.Issuer = sim.S("https://evil-idp.example.test/")
 	case "issuer-empty":
 		rec.Issuer = sim.S("")
+	case "issuer-nearmiss":
+		rec.Issuer = sim.S(near(c03Iss))
 	case "issuer-suffix-after-pi":
 		// the configured issuer, a processing instruction, then more text: the element's string value is the concatenation
 		rec.Issuer = sim.S(c03Iss + sim.PIMark + ".rogue.example")
@@ -156,6 +158,8 @@ func injectSSOFault(r *rand.Rand, rec *sim.Response, now time.Time, f string) st
 			a.Issuer = sim.S("https://evil-idp.example.test/")
 		case "a-issuer-empty":
 			a.Issuer = sim.S("")
+		case "a-issuer-nearmiss":
+			a.Issuer = sim.S(near(c03Iss))
 		case "a-issuer-suffix-after-pi":
 			a.Issuer = sim.S(c03Iss + sim.PIMark + ".rogue.example")
 		case "subject-absent":
